@@ -26,6 +26,7 @@ def gen_inputs(ctx):
             out.append(("Emit", {"net": net, "seed": seed, "what": "nodes", "paths": [[idx4(i) for i in p] for p in paths]},
                         ("nodes", net)))
             out.append(("Emit", {"net": net, "seed": seed, "what": "wasabi"}, ("wasabi", net)))
+            out.append(("Emit", {"net": net, "seed": seed, "what": "foreign-node"}, ("foreign-node", net)))
             out.append(("Emit", {"net": net, "seed": seed, "what": "wasabi", "companion": True}, ("wasabi-with-companion-view", net)))
             out.append(("Emit", {"net": net, "seed": seed, "what": "nodes", "companion": True,
                                  "paths": [[idx4(i) for i in p] for p in paths[:6]]}, ("nodes-with-companion-view", net)))
